@@ -227,6 +227,10 @@ func VerifC03_Shorthand() {
 	if nProps == 2 {
 		props["other"] = NewPropertySchema(NewIntSchema(nil, nil, nil), nil, false, nil, nil, nil, nil, nil)
 	}
+	disabled := nondetBool("disabled")
+	if disabled {
+		props["only"].Disable("not available")
+	}
 	o := NewObjectSchema("S", props)
 	v := nondetInt64("v")
 	got, err := o.Unserialize(v)
@@ -234,7 +238,10 @@ func VerifC03_Shorthand() {
 	if min != nil {
 		inRange = v >= *min
 	}
-	verifAssert("C03/shorthand/accepted-iff-single-property-accepts", vIff(err == nil, vAnd(nProps == 1, inRange)))
+	// the shorthand is the single property supplied: a disabled property is not accepted this way either
+	verifAssert("C03/shorthand/accepted-iff-single-property-accepts", vIff(err == nil, vAnd(vAnd(nProps == 1, inRange), !disabled)))
+	_, merr := o.Unserialize(map[string]any{"only": v})
+	verifAssert("C03/shorthand/same-verdict-as-the-mapping-form", vImplies(nProps == 1, vIff(err == nil, merr == nil)))
 	if err == nil {
 		m := got.(map[string]any)
 		verifAssert("C03/shorthand/result", len(m) == 1 && m["only"].(int64) == v)
@@ -388,3 +395,55 @@ func VerifC03_SubObjectDefaults() {
 	verifObserve("res", res)
 	verifReach("C03/subdefaults/end")
 }
+
+// members declared under the zero value of the key type (0, "") are ordinary members: Unserialize, Validate and
+// Serialize dispatch to them alike; a missing discriminator is still rejected
+func VerifC03_OneOfZeroKey() {
+	intKeys := nondetBool("intKeys")
+	vmin := verifOptInt64("vmin")
+	member := func(id string) *ObjectSchema {
+		return NewObjectSchema(id, map[string]*PropertySchema{"v": NewPropertySchema(NewIntSchema(vmin, nil, nil), nil, true, nil, nil, nil, nil, nil)})
+	}
+	var s Type
+	raw := map[string]any{"v": nondetInt64("v")}
+	hasD := nondetBool("hasD")
+	zero := nondetBool("zeroKey")
+	if intKeys {
+		s = NewOneOfIntSchema[any](map[int64]Object{0: member("Zero"), 1: member("One")}, "d", false)
+		if hasD {
+			if zero {
+				raw["d"] = int64(0)
+			} else {
+				raw["d"] = int64(1)
+			}
+		}
+	} else {
+		s = NewOneOfStringSchema[any](map[string]Object{"": member("Empty"), "a": member("A")}, "d", false)
+		if hasD {
+			if zero {
+				raw["d"] = ""
+			} else {
+				raw["d"] = "a"
+			}
+		}
+	}
+	v := raw["v"].(int64)
+	inRange := true
+	if vmin != nil {
+		inRange = v >= *vmin
+	}
+	u, err := s.Unserialize(verifClone(raw))
+	verifAssert("C03/zerokey/unserialize-accepts-iff-discriminator-present-and-member-accepts", vIff(err == nil, vAnd(hasD, inRange)))
+	if err == nil {
+		verifAssert("C03/zerokey/result-validates", s.Validate(u) == nil)
+		_, serr := s.Serialize(u)
+		verifAssert("C03/zerokey/result-serializes", serr == nil)
+	}
+	// native map values go through the same dispatch
+	verr := s.Validate(verifClone(raw))
+	verifAssert("C03/zerokey/validate-accepts-iff-discriminator-present-and-member-accepts", vIff(verr == nil, vAnd(hasD, inRange)))
+	verifObserve("accepted", err == nil)
+	verifReach("C03/zerokey/end")
+}
+
+func init() { verifRegister("VerifC03_OneOfZeroKey", VerifC03_OneOfZeroKey) }
